@@ -164,6 +164,17 @@ def gen_contest_json(rng, cid, cands, style=None):
                 E = list(E); rng.shuffle(E)
                 aj.append({"winner": x, "loser": rng.choice(losers), "already_eliminated": E,
                            "assertion_type": "IRV_ELIMINATION"})
+    if rng.chance(0.2):
+        # "... not eliminated next when exactly E are gone" with an identifier in E that is not a listed candidate of the
+        # contest (a write-in, as in examples/log.json "elim 15 16 45"): such an assertion contradicts no elimination
+        # order of the listed candidates and must prune nothing
+        extra = rng.choice(["45", "W", "write-in", cands[0] + cands[-1]])
+        if extra not in cands:
+            for a in aj:
+                if a["assertion_type"] == "IRV_ELIMINATION" and rng.chance(0.4):
+                    E = list(a["already_eliminated"])
+                    E.insert(rng.randint(0, len(E)), extra)
+                    a["already_eliminated"] = E
     rng.shuffle(aj)
     seen, uniq = set(), []
     for a in aj:                      # assertion names are dict keys: one assertion per name
